@@ -209,6 +209,11 @@ def run_one(tape, cfg):
                 else:
                     rpaths = ["simfs:/" + nm for nm in names]
                     whole = None
+                    if blocksize is not None and len(rpaths) >= 2 and tape.chance(1, 3, "zero_byte_file"):
+                        # a zero-byte file among the inputs (not first): it contributes no rows
+                        out.probe("zero_byte_file_among_inputs")
+                        simfs.put("simfs://out/zz-empty.csv", b"")
+                        rpaths.insert(1 + tape.draw(len(rpaths) - 1, "zpos"), "simfs://out/zz-empty.csv")
                 rerr = None
                 got = None
                 if rpaths is not None:
